@@ -425,6 +425,13 @@ def fixed_cases():
         yield {'v': ['std', 'ddict', 'list', [[['str', 'k'], inner]]], 'd': d, 'width': 79, 'generic': True}
         yield {'v': ['std', 'ntuple', 'Point', [inner, ['int', 5]]], 'd': d, 'width': 79, 'generic': True}
         yield {'v': ['call', 'box', [inner], []], 'd': d, 'width': 79, 'generic': True}
+        # the sole positional argument of a call is an instance of a SUBCLASS of list / dict / tuple (it counts as a level)
+        for sole in (['std', 'odict', [[['str', 'k'], inner]]], ['std', 'ddict', 'list', [[['str', 'k'], inner]]],
+                     ['std', 'counter', [[['str', 'k'], 777]]], ['std', 'ntuple', 'Point', [inner, ['int', 5]]],
+                     ['sub', 'list', 'plain', ['list', [inner, ['int', 6]]]], ['sub', 'dict', 'plain', ['dict', [[['str', 'k'], inner]]]],
+                     ['sub', 'tuple', 'plain', ['tuple', [inner]]]):
+            yield {'v': ['call', 'box', [sole], []], 'd': d, 'width': 79, 'generic': True}
+            yield {'v': ['std', 'chainmap', [[[['str', 'm'], ['call', 'alt', [sole], []]]]]], 'd': d, 'width': 79, 'generic': True}
         # str keys out of order under sort_dict_keys; leaves printed as calls (timedelta, date, UUID) at and around the cut
         unsorted = ['dict', [[['str', 'x'], ['int', 1]], [['str', 'a'], ['list', [['int', 2]]]], [['str', 'm'], ['dict', [[['str', 'z'], ['int', 1]], [['str', 'b'], ['int', 2]]]]]]]
         yield {'v': unsorted, 'd': d, 'width': 79, 'generic': True, 'sort': True}
